@@ -20,8 +20,9 @@ def _setup(w):
     nt = w['notes']
     T, K, n, labels = int(nt['T']), int(nt['K']), int(nt['n']), [int(x) for x in nt['labels']]
     inp = w.get('inputs') or {}
-    args = arguments.UserArguments(sparsity_weight=0.1, iteration_limit=1, label_switching_cost=1.0,
-                                   min_cluster_size=1, min_meaningful_covariance=0, num_clusters=K,
+    args = arguments.UserArguments(sparsity_weight=abs(flt(inp.get('lam', 0.1))), iteration_limit=1,
+                                   label_switching_cost=abs(flt(inp.get('beta', 1.0))),
+                                   min_cluster_size=1, min_meaningful_covariance=abs(flt(inp.get('eps', 0))), num_clusters=K,
                                    num_processors=1, window_size=1, biased_covariance=False)
     st = model_state.ModelState.empty_model(args, np.zeros((T, n)))
     st.point_labels = list(labels)
